@@ -1,6 +1,7 @@
 import AthlibVerif.Model.Perf
 import AthlibVerif.Lemmas.NatStr
 import AthlibVerif.Lemmas.PerfPlain
+import AthlibVerif.Lemmas.PerfMss
 /-!
 # C12 — Performance validation returns plausible, well-formed marks or the given error
 
@@ -14,7 +15,8 @@ patterns and code tuples regenerated from `athlib/codes.py`.  Proved for all inp
 * timed events: an accepted time has seconds below 60 whenever a minutes or hours field is printed, and
   minutes below 60 under hours.
 The speed window is proved for every parsed text of at most two decimals (`C12_timed_speed_window`); idempotence of timed
-results is proved for plain-seconds results of events shorter than 800 m (`C12_plain_seconds_idempotent_partial`).
+results is proved for plain-seconds results of events shorter than 800 m (`C12_plain_seconds_idempotent_partial`) and for
+`m:ss` results of events between 200 m and 800 m other than 400 m (`C12_mss_idempotent_partial`).
 NOT proved (kept as `C12_statement`): idempotence in general — it is false of the code (known findings, see DESIGN.md)
 and decided on the implementation by tools/checks/c12.py.
 -/
@@ -318,6 +320,117 @@ theorem C12_plain_seconds_returned_unchanged (hA : asciiDigitsOK = true) (disc t
 /-- non-vacuity: 100 m in 10.5 (typed with one decimal) is such a case -/
 example : (match getDistance 8 "100".toList with | .ok (some 100) => true | _ => false) = true ∧
     timedCore "100".toList "10.5".toList = .time 0 0 1050 := by decide +kernel
+
+/-! ## idempotence, partial: `m:ss` results of events between 200 m and 800 m -/
+
+/-- the decision on fields that denote the same time again: `n' / sd'` seconds with `n' · 100 = c · sd'` -/
+theorem timedDecide_again (disc : Str) (d m c n' sd' k' : Nat) (hd : 0 < d) (h4 : d ≠ 400) (hm : 0 < m) (hc : c < 6000)
+    (hsd : (sd' = 1 ∧ k' = 0) ∨ (sd' = 10 ∧ k' = 1) ∨ (sd' = 100 ∧ k' = 2)) (hn : n' * 100 = c * sd')
+    (h11 : d ≤ 400 → d * 100 ≤ 11 * (60 * m * 100 + c)) (h10 : 400 < d → d * 100 ≤ 10 * (60 * m * 100 + c))
+    (hslow : 60 * m * 100 + c ≤ 2 * d * 100) :
+    timedDecide disc (some d) 0 m n' sd' k' = .time 0 m c := by
+  have hm0 : (m == 0) = false := by simp; omega
+  have h400 : (some d == some 400) = false := by simp [h4]
+  unfold timedDecide
+  simp only [hm0, Bool.false_and, Bool.false_eq_true, if_false, hd, decide_true, Option.getD_some, h400]
+  unfold timedGuards speedBad
+  rcases hsd with ⟨rfl, rfl⟩ | ⟨rfl, rfl⟩ | ⟨rfl, rfl⟩
+  · have hn' : n' * 100 = c := by omega
+    have hc1 : n' * 100 / 1 = c := by omega
+    by_cases hle : d ≤ 400
+    · have := h11 hle
+      simp [hle, hc1]
+      rw [if_neg (by omega), if_neg (by omega), if_neg (fun h => by have := h.2; omega)]
+    · have := h10 (by omega)
+      simp [hle, hc1]
+      rw [if_neg (by omega), if_neg (by omega), if_neg (fun h => by have := h.2; omega)]
+  · have hc1 : n' * 100 / 10 = c := by omega
+    by_cases hle : d ≤ 400
+    · have := h11 hle
+      simp [hle, hc1]
+      rw [if_neg (by omega), if_neg (by omega), if_neg (fun h => by have := h.2; omega)]
+    · have := h10 (by omega)
+      simp [hle, hc1]
+      rw [if_neg (by omega), if_neg (by omega), if_neg (fun h => by have := h.2; omega)]
+  · have hc1 : n' * 100 / 100 = c := by omega
+    by_cases hle : d ≤ 400
+    · have := h11 hle
+      simp [hle, hc1]
+      rw [if_neg (by omega), if_neg (by omega), if_neg (fun h => by have := h.2; omega)]
+    · have := h10 (by omega)
+      simp [hle, hc1]
+      rw [if_neg (by omega), if_neg (by omega), if_neg (fun h => by have := h.2; omega)]
+
+/-- **An `m:ss` result between 200 m and 800 m is accepted unchanged when validated again** (idempotence, partial):
+    for an event with a distance `200 < d < 800`, `d ≠ 400` (none of the colon / stop re-readings applies), a result
+    with a minutes field has no hours field, seconds below 60, and — printed `"%d:%05.2f"` with trailing zeros and a
+    trailing point stripped — is read back as the same minutes and hundredths and passes the checks again. -/
+theorem C12_mss_idempotent_partial (hA : asciiDigitsOK = true) (disc t : Str) (d h m c : Nat)
+    (hg : getDistance 8 disc = .ok (some d)) (h200 : 200 < d) (h800 : d < 800) (h4 : d ≠ 400)
+    (hno : strIn disc ["800", "1500", "3000"] = false) (hm : 0 < m) (hr : timedCore disc t = .time h m c) :
+    h = 0 ∧ c < 6000 ∧ timedCore disc (formatTime h m c) = .time h m c := by
+  have hd : 0 < d := by omega
+  obtain ⟨h0, m0, sn0, dc0, hdec⟩ := timedCore_decided disc t d hg h m c hr
+  obtain ⟨_, h11, h10, hslow⟩ := C12_timed_speed_window disc d hd h0 m0 sn0 dc0 h m c hdec
+  have hc : c < 6000 := (C12_timed_fields_below_60 disc (some d) h0 m0 sn0 (10 ^ dc0) dc0 h m c hdec).1 (Or.inr hm)
+  have hh : h = 0 := by omega
+  subst hh
+  refine ⟨rfl, hc, ?_⟩
+  simp only [Nat.mul_zero, Nat.zero_add] at h11 h10 hslow
+  -- the printed text
+  have ha : c / 1000 < 10 := by omega
+  have hb : c / 100 % 10 < 10 := by omega
+  have he : c / 10 % 10 < 10 := by omega
+  have hf : c % 10 < 10 := by omega
+  have hpre : 2 ≤ (natStr m ++ [':']).length := by
+    have := natStrAux_ne_nil (m + 1) m [] (Or.inl (Nat.succ_pos _))
+    have : (natStr m).length ≠ 0 := fun e => this (List.eq_nil_of_length_eq_zero e)
+    simp only [List.length_append, List.length_cons, List.length_nil]; omega
+  have hfmt : formatTime 0 m c = stripTime ((natStr m ++ [':']) ++
+      [digitChar0 (c / 1000), digitChar0 (c / 100 % 10), '.', digitChar0 (c / 10 % 10), digitChar0 (c % 10)]) := by
+    unfold formatTime
+    rw [if_neg (by omega), if_pos hm, fmt52_lt6000 c hc]
+  rw [hfmt, stripTime_mss _ _ _ _ _ hpre (digitChar0_ne_dot' _ he) (digitChar0_ne_dot' _ hf)]
+  have hcA := digitChar0_ne_colon _ ha
+  have hcB := digitChar0_ne_colon _ hb
+  have hcE := digitChar0_ne_colon _ he
+  have hcF := digitChar0_ne_colon _ hf
+  have hdot : ('.' : Char) ≠ ':' := by decide
+  by_cases hF : digitChar0 (c % 10) = '0'
+  · have f0 : c % 10 = 0 := (digitChar0_eq_zero _ hf).1 hF
+    rw [if_neg (by simpa using hF)]
+    by_cases hE : digitChar0 (c / 10 % 10) = '0'
+    · have e0 : c / 10 % 10 = 0 := (digitChar0_eq_zero _ he).1 hE
+      rw [if_neg (by simpa using hE), List.append_assoc, List.singleton_append]
+      rw [timedCore_mss hA disc m hm _ d hg h200 h800 hno
+        (by intro ch hch; simp only [List.mem_cons, List.mem_nil_iff, or_false] at hch; rcases hch with rfl | rfl <;> assumption)
+        _ (floatOf_ss hA _ _ ha hb)]
+      exact timedDecide_again disc d m c _ 1 0 hd h4 hm hc (Or.inl ⟨rfl, rfl⟩) (by omega) h11 h10 hslow
+    · rw [if_pos (by simpa using hE), List.append_assoc, List.singleton_append]
+      rw [timedCore_mss hA disc m hm _ d hg h200 h800 hno
+        (by intro ch hch; simp only [List.mem_cons, List.mem_nil_iff, or_false] at hch; rcases hch with rfl | rfl | rfl | rfl <;> assumption)
+        _ (floatOf_ss_c hA _ _ _ ha hb he)]
+      exact timedDecide_again disc d m c _ 10 1 hd h4 hm hc (Or.inr (Or.inl ⟨rfl, rfl⟩)) (by omega) h11 h10 hslow
+  · rw [if_pos (by simpa using hF), List.append_assoc, List.singleton_append]
+    rw [timedCore_mss hA disc m hm _ d hg h200 h800 hno
+      (by intro ch hch; simp only [List.mem_cons, List.mem_nil_iff, or_false] at hch; rcases hch with rfl | rfl | rfl | rfl | rfl <;> assumption)
+      _ (floatOf_ss_cc hA _ _ _ _ ha hb he hf)]
+    exact timedDecide_again disc d m c _ 100 2 hd h4 hm hc (Or.inr (Or.inr ⟨rfl, rfl⟩)) (by omega) h11 h10 hslow
+
+/-- the same on the level of the validator's timed branch -/
+theorem C12_mss_returned_unchanged (hA : asciiDigitsOK = true) (disc t : Str) (d h m c : Nat)
+    (hg : getDistance 8 disc = .ok (some d)) (h200 : 200 < d) (h800 : d < 800) (h4 : d ≠ 400)
+    (hno : strIn disc ["800", "1500", "3000"] = false) (hm : 0 < m) (hr : timedCore disc t = .time h m c) :
+    checkTimed disc t = .ok (formatTime h m c) ∧ checkTimed disc (formatTime h m c) = .ok (formatTime h m c) := by
+  obtain ⟨_, _, h2⟩ := C12_mss_idempotent_partial hA disc t d h m c hg h200 h800 h4 hno hm hr
+  unfold checkTimed
+  rw [hr, h2]
+  exact ⟨rfl, rfl⟩
+
+/-- non-vacuity: 600 m in 1:35.5, returned as `1:35.5` -/
+example : (match getDistance 8 "600".toList with | .ok (some 600) => true | _ => false) = true ∧
+    strIn "600".toList ["800", "1500", "3000"] = false ∧
+    timedCore "600".toList "1:35.50".toList = .time 0 1 3550 ∧ formatTime 0 1 3550 = "1:35.5".toList := by decide +kernel
 
 /-- Full statement of the remaining clauses (NOT proved here). -/
 def C12_statement : Prop :=
